@@ -190,6 +190,28 @@ def gen(ctx):
     T.append(("[label $o | ((def f: if . < 3 then ., (. + 1 | f) else (label $i | break $o) end; f), input)]", 1, [[1, 2]], 1))
     T.append(("[label $o | (recurse(if . < 3 then . + 1 else (label $i | break $o) end), input)]", 1, [[1, 2, 3]], 1))
     T.append(("[label $o | (first(def f: if . < 3 then (. + 1 | f) else (., break $o) end; f), input)]", 1, [[3, 2]], 2))
+    # index and slice filters with several outputs: the second one is not computed before the first position is delivered
+    T.append(("[10, 20, 30] | first(.[0, input])", 1, [10], 1))
+    T.append(("[10, 20, 30] | [first(.[0, input]), input]", 1, [[10, 2]], 2))
+    T.append(("[10, 20, 30] | limit(1; .[1, input])", 1, [20], 1))
+    T.append(("[10, 20, 30] | first(.[(1, input):])", 1, [[20, 30]], 1))
+    T.append(("[10, 20, 30] | first(.[:(1, input)])", 1, [[10]], 1))
+    T.append(("{\"a\": 5} | first(.[\"a\", input])", 1, [5], 1))
+    T.append(("[10, 20, 30] | first(path(.[0, input]))", 1, [[0]], 1))
+    T.append(("[[7], [8]] | first(.[0, input][0])", 1, [7], 1))
+    T.append(("[[7], [8]] | first(.[0][0, input])", 1, [7], 1))
+    T.append(("[10, 20, 30] | first(.[0, input]?)", 1, [10], 1))
+    T.append(("[10, 20, 30] | first(.[0, (def f: f; f)])", 1, [10], 1))
+    T.append(("[10, 20, 30] | label $l | .[0, input] | ., break $l", 1, [10], 1))
+    T.append(("{\"a\": 5} | [label $l | path(.[\"a\", input]) | ., break $l] | length", 1, [1], 1))
+    T.append(("[10, 20, 30] | first(getpath([0], [input]))", 1, [10], 1))
+    T.append(("[10, 20, 30] | first(.[0, input] as $x | $x)", 1, [10], 1))
+    # reduce folds its source as it comes: an update that stops the fold leaves the rest of the source alone
+    T.append(("[(label $out | reduce inputs as $x (0; if $x == 3 then break $out else . + $x end)), input]", 1, [[4]], 4))
+    T.append(("[(try reduce inputs as $x (0; error($x)) catch .), input]", 1, [[2, 3]], 3))
+    T.append(("[reduce (1, input, input) as $x (0; empty)] | length", 1, [0], 1))
+    T.append(("try reduce (1, (def f: f; f)) as $x (0; error(\"stop\")) catch .", 1, [S("stop")], 1))
+    T.append(("[reduce (1, (def f: f; f)) as $x (0; empty)]", 1, [[]], 1))
     for j in range(1, 5):
         T.append(("limit(%d; inputs)" % j, j, list(range(2, 2 + j)), j + 1))
         T.append(("[limit(%d; inputs)]" % j, 1, [list(range(2, 2 + j))], j + 1))
@@ -265,11 +287,23 @@ def custom(ctx):
     for p in progs:
         for n in (N, 2 * N):
             jobs.append(dict(args=["-n", "-c", p.replace("@N", str(n))], timeout=120))
-    times = []
-    for j in jobs:
-        t0 = time.time()
+    import resource
+
+    def timed(j):
+        """CPU time of the child (user + system), not wall time: other work on the machine must not look like growing work per output"""
+        r0 = resource.getrusage(resource.RUSAGE_CHILDREN)
         rc, out, err = cli.run_one(j["args"], timeout=j["timeout"])
-        times.append((time.time() - t0, rc, out.strip()))
+        r1 = resource.getrusage(resource.RUSAGE_CHILDREN)
+        return ((r1.ru_utime - r0.ru_utime) + (r1.ru_stime - r0.ru_stime), rc, out.strip())
+    times = [timed(j) for j in jobs]
+    for i in range(len(progs)):
+        # a measurement that looks super-linear is repeated (twice) before it counts; the best pair is kept
+        for _ in range(2):
+            (t1, rc1, o1), (t2, rc2, o2) = times[2 * i], times[2 * i + 1]
+            if rc1 == 0 and rc2 == 0 and t2 > 6 * t1 + 1.0:
+                a, b = timed(jobs[2 * i]), timed(jobs[2 * i + 1])
+                if b[0] - 6 * a[0] < t2 - 6 * t1:
+                    times[2 * i], times[2 * i + 1] = a, b
     for i, p in enumerate(progs):
         (t1, rc1, o1), (t2, rc2, o2) = times[2 * i], times[2 * i + 1]
         ok = rc1 == 0 and rc2 == 0 and o1 == str(N).encode() and o2 == str(2 * N).encode()
